@@ -24,7 +24,7 @@ for p in props:
         na.append({"property_id": pid, "reason": src['unclaimed'].get(pid, "check not built yet in this session; planned in DESIGN.md §" + pid)})
 m = {
     "version": 1,
-    "setup_cmd": "cd lean && lake build",
+    "setup_cmd": "sh tools/setup.sh " + " ".join(sorted(src["claimed"])),
     "hooks": {"guard": "COBA_VERIF", "enable": "no hooks are needed: checks import coba from /repo's working tree and substitute module-level names from outside",
               "baseline_off_cmd": "cd /repo && /venv/bin/python -m pytest -ra -q -p no:cacheprovider --timeout=900 --continue-on-collection-errors",
               "source_commits": [], "add_only": True},
